@@ -39,6 +39,8 @@ KINDS = {
 def snap(b):
     """comparable snapshot of a top-level block."""
     d = dict(type=type(b).__name__, jt=tuple(b._jump_targets), be=tuple(b.backedges))
+    if hasattr(b, "begin"):
+        d["range"] = (b.begin, b.end)
     if isinstance(b, SyntheticBranch):
         d["var"] = b.variable
         d["table"] = dict(b.branch_value_table)
@@ -77,7 +79,7 @@ class Exec:
     def _op_init(self, graph_json, prestage):
         g = gg.graph_from_json(graph_json)
         self.orig = g
-        self.real = M.mk_scfg(g)
+        self.real = M.mk_scfg(g, "bytecode" if next(iter(g)).startswith("python_bytecode") else "plain")
         if prestage == "loop":
             self._call(self.real.join_returns)
             self._call(self.real.restructure_loop)
@@ -126,9 +128,9 @@ class Exec:
                 if cur != old + [new]:
                     raise M.Viol("E-append", f"insert({P},[]): {k}: {old} -> {cur}, expected the new block appended")
             # everything but the targets (and the table) is unchanged
-            for f in ("type", "be", "var", "assign"):
+            for f in ("type", "be", "var", "assign", "range"):
                 if a.get(f) != b.get(f):
-                    raise M.Viol("E-pred-field", f"insert changed {f} of predecessor {k}")
+                    raise M.Viol("E-pred-field", f"insert changed {f} of predecessor {k}: {b.get(f)} -> {a.get(f)}")
             if "region" in b and a["region"] != b["region"]:
                 raise M.Viol("E-pred-field", f"insert changed header/exiting of region predecessor {k}")
             if "table" in b:
@@ -185,7 +187,7 @@ class Exec:
                         raise M.Viol("E-ctrl-value", f"ctrl({P},{S}): arc {k}->{o}: {c} assigns {ab.variable_assignment}, head table {nb.branch_value_table}")
                 elif o != c:
                     raise M.Viol("E-rest", f"ctrl({P},{S}): successor {o} of {k} not in S became {c}")
-            for f in ("type", "be", "var", "assign"):
+            for f in ("type", "be", "var", "assign", "range"):
                 if a.get(f) != b.get(f):
                     raise M.Viol("E-pred-field", f"ctrl changed {f} of predecessor {k}")
             if "table" in b:
